@@ -14,6 +14,9 @@ Ops == {
   "derefdiscard", "derefdiscardstruct", "derefdiscardarray", \* _ = *p : the operand is evaluated although the value is dropped
   "rangeptrarraykey", "rangeptrarrayval",                 \* for i := range *p (not evaluated: length is constant) / for _, v := range *p
   "assertemptyiface",                                     \* x.(any) for x of a non-empty interface type: nil / match
+  \* arrays whose constant length sits at the edge of the index type's range: index = len-1 ("last") or = len ("len");
+  \* with len = max+1 every value of the type is in range ("full": the one legitimate elision of the check)
+  "edgearr8", "edgeptr8", "edgestore8", "edgearr16", "edgeptr16", "edgeptr32", "edgefull8", "edgefull16",
   "callfunc",                                              \* operand: nil / valid func value
   "assertconcrete", "assertiface", "assertcomma",         \* operand: nil iface / matching dyn type / other dyn type
   "divint", "modint", "divint8", "divuint", "divconstzerovar", \* operand: zero / nonzero divisor
@@ -28,6 +31,8 @@ States(op) ==
     [] op \in {"deref", "fieldsmall", "fieldlarge", "ptrarrayindex", "ptrarraylen", "methodptr", "callfunc", "ifacemethod",
                 "derefdiscard", "derefdiscardstruct", "derefdiscardarray", "rangeptrarraykey", "rangeptrarrayval"} -> {"nil", "valid"}
     [] op = "assertemptyiface" -> {"nil", "match"}
+    [] op \in {"edgearr8", "edgeptr8", "edgestore8", "edgearr16", "edgeptr16", "edgeptr32"} -> {"last", "len"}
+    [] op \in {"edgefull8", "edgefull16"} -> {"last"}
     [] op \in {"assertconcrete", "assertiface", "assertcomma"} -> {"nil", "match", "other"}
     [] op \in {"divint", "modint", "divint8", "divuint", "divconstzerovar"} -> {"zero", "nonzero"}
     [] op \in {"makeslice", "makechan", "makemap"} -> {"neg", "zero", "pos"}
@@ -46,6 +51,8 @@ Mandated(op, st) ==
          IF st = "nil" THEN "nilderef" ELSE "none"
     [] op \in {"ptrarraylen", "rangeptrarraykey"} -> "none" \* len of a nil *[3]int is 3 and a key-only range over *p does not evaluate *p
     [] op = "assertemptyiface" -> IF st = "match" THEN "none" ELSE "assert"
+    [] op \in {"edgearr8", "edgeptr8", "edgestore8", "edgearr16", "edgeptr16", "edgeptr32"} -> IF st = "len" THEN "bounds" ELSE "none"
+    [] op \in {"edgefull8", "edgefull16"} -> "none"
     [] op \in {"assertconcrete", "assertiface"} -> IF st = "match" THEN "none" ELSE "assert"
     [] op = "assertcomma" -> "none"
     [] op \in {"divint", "modint", "divint8", "divuint", "divconstzerovar"} -> IF st = "zero" THEN "divide" ELSE "none"
@@ -59,7 +66,7 @@ Mandated(op, st) ==
 
 VARIABLE c
 Cases == {cs \in [op : Ops, st : {"nil", "empty", "nonempty", "valid", "match", "other", "zero", "nonzero", "neg", "pos",
-                                  "caplt", "capeq", "short", "exact", "long", "open", "closed"}, rep : 1..3] :
+                                  "caplt", "capeq", "short", "exact", "long", "open", "closed", "last", "len"}, rep : 1..3] :
              cs.st \in States(cs.op)}
 Init == c \in Cases
 Next == UNCHANGED c
